@@ -89,7 +89,7 @@ def run(ctx):
                     if ent is None:
                         rs.unrec("indexed identifier %s has no parser reference" % ident)
                         continue
-                    b = ctors.builds(ent[0])
+                    b = ctors.builds_any(ent[0])
                     if any(opn == nm for opn, _ in b):
                         rs.ok({"printer": cls.split(".")[-1], "op": nm, "token": "(_ %s ..)" % ident, "parser_builds": nm})
                     else:
@@ -107,7 +107,7 @@ def run(ctx):
                 good = False
                 seen = set()
                 for c in cs:
-                    for opn, order in ctors.builds(c):
+                    for opn, order in ctors.builds_any(c):
                         seen.add(opn)
                         if opn == nm and (order is None or list(order) == sorted(order)):
                             good = True
@@ -227,7 +227,7 @@ def run(ctx):
             seen = set()
             good = False
             for c in cs:
-                for opn, order in ctors.builds(c):
+                for opn, order in ctors.builds_any(c):
                     seen.add(opn)
                     if opn == nm:
                         good = True
